@@ -118,7 +118,7 @@ func c10Ops() []c10Op {
 	}
 
 	for i := 0; i < c10S; i++ {
-		for _, n := range []string{"Zero", "One", "MinusOne", "SetUInt64(3)", "SetSparse", "Square", "Invert", "Add(nil)", "Subtract(nil)", "Multiply(nil)", "Set(nil)", "=HashToScalar", "=HashToScalar(longDST)"} {
+		for _, n := range []string{"Zero", "One", "MinusOne", "Random", "SetUInt64(3)", "SetSparse", "Square", "Invert", "Add(nil)", "Subtract(nil)", "Multiply(nil)", "Set(nil)", "=HashToScalar", "=HashToScalar(longDST)"} {
 			ops = append(ops, c10Op{name: n, i: i, j: i})
 		}
 
@@ -137,6 +137,9 @@ func c10Ops() []c10Op {
 
 	return ops
 }
+
+// c10RandomValue is what Random returns under the constant entropy stream 0x42 0x42 ... of the harness processes.
+var c10RandomValue = ref.Mod(ref.OS2IP(bytes.Repeat([]byte{0x42}, 32)), ref.N)
 
 // c10BadScalar lists invalid scalar encodings. A rejected scalar decode may change the receiver (the properties
 // only constrain accepted inputs and the error), so the model re-reads the receiver's value afterwards; what must
@@ -380,6 +383,10 @@ func c10Apply(st c10State, m c10Model, o c10Op) (ns c10State, nm c10Model, key, 
 		case "MinusOne":
 			r.MinusOne()
 			nm.s[o.i] = new(big.Int).Sub(ref.N, big.NewInt(1))
+		case "Random":
+			// crypto/rand.Reader is a constant stream in the harness processes (package conc), so the result is known
+			r.Random()
+			nm.s[o.i] = c10RandomValue
 		case "SetUInt64(3)":
 			r.SetUInt64(3)
 			nm.s[o.i] = big.NewInt(3)
